@@ -284,6 +284,23 @@ CLAIMED = {
         technique="TLA+ exact-arithmetic kernel spec model-checked by TLC + TLC trace validation of records taken from the real contacts",
         ref="5/C06",
     ),
+    "C10": dict(
+        level="model_checking",
+        text="RodKinematics.tla, invariant ObjectivityOK: under a rigid motion of an element (r_i -> R0 r_i + d, P_i -> Q0 o P_i) the strain measures of "
+             "the Quaternion and R12 families and the body-fixed nodal couples of the weak form are unchanged, the nodal forces turn with R0, and the "
+             "nodal forces of an element have zero resultant (TLC, exact rationals, every lattice case; the stress resultants vanish where the strains "
+             "equal the reference strains by definition of the weak form). Real rod elements (Quaternion / R12, displacement-based / mixed, degree "
+             "1 / 2) with rational quadrature abscissae are evaluated at the reference configuration, at rational states and at the same states moved "
+             "by a rational rigid motion; TLC recomputes the internal forces (W_c la_c and c_el for the mixed rods) of every record from the weak "
+             "form and the harness compares the moved / unmoved pairs. Float supplements on genuine rods (Gauss rules; Quaternion, SE3 and R12; "
+             "displacement-based, mixed, internally constrained; straight and curved references): zero energy / forces / residuals at the "
+             "reference, invariance of E_pot, c and g under random rigid motions, of the forces under translations, zero resultant.",
+        note="Claimed for the rational core: Quaternion and R12 interpolation, Simo1986 material, rational quadrature abscissae (the one-point rule "
+             "of linear elements as it is; substituted abscissae for quadratic elements, see C11). The SE(3) family, curved references and the "
+             "genuine Gauss rules are covered by float comparisons at 1e-9 only. A corrupted record must be rejected (self-test).",
+        technique="TLA+ dual-number (exact rational) specification with objectivity / self-equilibrium invariants model-checked by TLC + TLC trace validation of internal forces recorded from real rod elements",
+        ref="5/C10",
+    ),
     "C11": dict(
         level="model_checking",
         text="RodKinematics.tla states the rod element's cross-section kinematics (centreline and orientation interpolation of the Quaternion and "
@@ -406,7 +423,6 @@ CLAIMED = {
 
 NOT_APPLICABLE = {
     "C03": "derivatives of transcendental SO(3)/SE(3) maps down to 1e-9 angles: real analysis / high-precision arithmetic, no state, no rational core for TLC (32-bit integers, no reals)",
-    "C10": "rod strain energy/forces are Gauss-quadrature integrals of normalised / transcendental fields: neither finite-state nor rational, nothing for a TLA+ model to state",
     "C19": "convergence order, secular energy drift and reversibility up to tolerance are asymptotic real-valued trajectory properties; the rational fragment does not exercise constraints or stage 2",
     "C23": "equilibrium residuals and frame-indifference of static rod problems are real-valued; the load-step protocol is covered by the statics instances under C21",
 }
